@@ -289,8 +289,20 @@ def oracle_b11(case, out):
         elif k == "FIN":
             if int(f[1]) != 2:
                 bad.append("O7 client release callback ran %d times for 2 uploads" % int(f[1]))
+    # which uploads are block-wise at all (a body that fits one message is an ordinary request:
+    # its re-delivery after a lost ACK is the message layer's business, C07/C10)
+    tok2 = ""
+    for tok in out.split():
+        if tok.startswith("TOK2:"):
+            tok2 = tok[5:]
+            break
+    first = {}
+    for f in ev:
+        if f[0] == "TXc" and f[2] != "UNPARSEABLE" and int(f[10]) > 0 and f[5] not in first:
+            first[f[5]] = f[6] != "-"
+    blockwise = {"=": first.get(case.tok, False), "+": first.get(tok2, False)}
     for eq, name in (("=", "A"), ("+", "B")):
-        if got[eq] > 1:
+        if got[eq] > 1 and blockwise[eq]:
             bad.append("O2 upload %s was delivered %d times" % (name, got[eq]))
     if case.lossless():
         if got["="] != 1 or got["+"] != 1:
